@@ -720,6 +720,98 @@ impl Check for ZstCheck {
 }
 
 // ---------------------------------------------------------------------------------------------
+// (b'') multi-borrow over two different state types that have the same `type_name` (same struct name declared in two
+// blocks of one function, as macros and helper functions produce them): identity of a state type is its TypeId
+// ---------------------------------------------------------------------------------------------
+
+#[derive(Clone, Debug, Serialize, Deserialize)]
+pub struct SameNameCase {
+    /// request the repeated tuple (A, A) before the distinct tuple (A, B)
+    pub repeated_first: bool,
+    pub arity3: bool,
+}
+
+pub struct SameNameCheck;
+
+fn same_name_requests(repeated_first: bool, arity3: bool) -> Result<(), String> {
+    #[derive(Tid)]
+    struct Counter(i64);
+    impl CustomState<'_> for Counter {}
+    type A = Counter;
+    {
+        #[derive(Tid)]
+        struct Counter(i64);
+        impl CustomState<'_> for Counter {}
+        type B = Counter;
+        if std::any::type_name::<A>() != std::any::type_name::<B>() {
+            return Err(format!("harness: the two types are expected to share their type_name ({} vs {})", std::any::type_name::<A>(), std::any::type_name::<B>()));
+        }
+        let mut reg = StateRegistry::new();
+        reg.insert(A { 0: 1 });
+        reg.insert(B { 0: 2 });
+        reg.insert(M0(3));
+        let mut distinct = |reg: &mut StateRegistry| -> Result<(), String> {
+            if arity3 {
+                match reg.try_get_multiple_mut::<(A, M0, B)>() {
+                    Ok((a, m, b)) => {
+                        if (a.0, m.0, b.0) != (1, 3, 2) {
+                            return Err(format!("(A, M0, B) resolved to values {:?}", (a.0, m.0, b.0)));
+                        }
+                        Ok(())
+                    }
+                    Err(e) => Err(format!("(A, M0, B) - three different state types - was refused: {e}")),
+                }
+            } else {
+                match reg.try_get_multiple_mut::<(A, B)>() {
+                    Ok((a, b)) => {
+                        if (a.0, b.0) != (1, 2) {
+                            return Err(format!("(A, B) resolved to values {:?}", (a.0, b.0)));
+                        }
+                        Ok(())
+                    }
+                    Err(e) => Err(format!("(A, B) - two different state types with the same type name - was refused: {e}")),
+                }
+            }
+        };
+        let mut repeated = |reg: &mut StateRegistry| -> Result<(), String> {
+            let granted = if arity3 { reg.try_get_multiple_mut::<(A, M0, A)>().is_ok() } else { reg.try_get_multiple_mut::<(A, A)>().is_ok() };
+            if granted {
+                Err("a tuple that repeats a state type was granted (two mutable references to one object)".into())
+            } else {
+                Ok(())
+            }
+        };
+        if repeated_first {
+            repeated(&mut reg)?;
+            distinct(&mut reg)?;
+            repeated(&mut reg)
+        } else {
+            distinct(&mut reg)?;
+            repeated(&mut reg)?;
+            distinct(&mut reg)
+        }
+    }
+}
+
+impl Check for SameNameCheck {
+    type Case = SameNameCase;
+    fn name(&self) -> String {
+        "C02/multi-borrow-same-type-name".into()
+    }
+    fn oracle(&self, c: &SameNameCase) -> Outcome {
+        // a fresh thread per case: nothing a previous request left behind (in the thread) can help or hurt
+        let (rf, a3) = (c.repeated_first, c.arity3);
+        let r = std::thread::spawn(move || same_name_requests(rf, a3)).join();
+        let res = match r {
+            Ok(Ok(())) => Ok(()),
+            Ok(Err(e)) => Err(Failure::new(if e.contains("refused") { "C02 multi-borrow refused valid tuple" } else { "C02 multi-borrow granted with repeated type" }, format!("two state types named alike, {c:?}: {e}"))),
+            Err(_) => Err(Failure::new("C02 multi-borrow panics", format!("{c:?}"))),
+        };
+        Outcome::new(true, 0, res)
+    }
+}
+
+// ---------------------------------------------------------------------------------------------
 // (c) holding
 // ---------------------------------------------------------------------------------------------
 
@@ -867,6 +959,9 @@ pub fn run_all(ctx: &mut Ctx, replay: Option<&Path>) {
             one.chain(two).collect::<Vec<_>>()
         }),
     );
+    let sn = SameNameCheck;
+    ctx.regressions(&sn);
+    ctx.exhaustive(&sn, "request order {distinct first, repeated first} x arity {2, 3}, each in a fresh thread", [false, true].into_iter().flat_map(|a| [false, true].into_iter().map(move |b| SameNameCase { repeated_first: a, arity3: b })));
     // (c)
     ctx.exhaustive(&h, "4 scope layouts x 6 type orders x nesting depth 1..3 x failure at each depth or nowhere x 5 bodies", hold_exhaustive().into_iter());
     let n = ctx.tier.pick(3000, 50_000);
